@@ -373,6 +373,11 @@ def render(doc):
                 # no encoding anywhere: 8-bit data with ASCII newlines
                 data = text.encode(raw_codec)
 
+            if d == 'bad-json-bytes':
+                # invalid at the byte level (not valid UTF-8, nor anything
+                # else), whatever the encoding in effect
+                data = b'{"a": "caf\xe9\xff" \xfe}' + nl
+
             if d == 'no-final-newline':
                 x = codecs_bomless('x', eff)
                 data = data[:-len(nl)] + (x * len(nl))[:len(nl)]
@@ -611,6 +616,7 @@ def applicable_defects(doc):
         if kind == 'meta':
             out.append((i, 'format-html'))
             out.append((i, 'bad-json'))
+            out.append((i, 'bad-json-bytes'))
 
     return out
 
